@@ -44,7 +44,14 @@ let run (kind : string) (args : Sexp.t list) : Sexp.t =
   let prog = List.map (function L (A "fn" :: body) -> List.map skel_of_sexp body | _ -> failwith "bad fn") args in
   match kind with
   | "skelvm" ->
-    (match run_program (nat_of_int 20000) prog with
+    (* the emit-and-patch compiler and the declarative compiler of the simulation theorem must agree *)
+    let wf = wf_program prog in
+    (match compile_program prog with
+     | Some code when wf && code <> dcompile_program prog -> L [A "compilers-differ"]
+     | None when wf -> L [A "compilers-differ"; A "compile-error-on-well-formed-program"]
+     | Some _ when not wf -> L [A "compilers-differ"; A "ill-formed-program-compiles"]
+     | _ ->
+    match run_program (nat_of_int 20000) prog with
      | None -> L [A "compile-error"]
      | Some (Done (l, o)) -> L [sexp_of_outcome o; L (A "log" :: List.map sexp_of_event l)]
      | Some (Stuck n) -> L [A "stuck"]
